@@ -300,7 +300,6 @@ func (*c33Engine) Shrink(c *Case) []*Case {
 	return out
 }
 
-
 // onlyIdlePoolWorkers reports whether every task of a deadlock state vector is
 // a thread pool worker blocked on its task queue.
 func onlyIdlePoolWorkers(state string) bool {
